@@ -18,6 +18,25 @@ pub fn set_state(desc: &str) {
         std::ptr::copy_nonoverlapping(b.as_ptr(), p, n);
     }
     STATE_LEN.store(n, Ordering::Release);
+    // watchdog: one state that runs longer than this is a hang (SIGALRM ends the child with the
+    // state attributed like any other crash); re-armed by every new state
+    let secs = WATCHDOG_SECS.load(Ordering::Relaxed);
+    if secs > 0 {
+        unsafe {
+            libc::alarm(secs as libc::c_uint);
+        }
+    }
+}
+/// (re-)arm a one-shot watchdog for the operation that starts now (0 disarms)
+pub fn arm(secs: u32) {
+    unsafe {
+        libc::alarm(secs as libc::c_uint);
+    }
+}
+static WATCHDOG_SECS: AtomicUsize = AtomicUsize::new(0);
+/// arm the per-state watchdog of this (child) process
+pub fn set_watchdog(secs: usize) {
+    WATCHDOG_SECS.store(secs, Ordering::Relaxed);
 }
 
 extern "C" fn on_fatal(sig: libc::c_int) {
@@ -35,7 +54,7 @@ extern "C" fn on_fatal(sig: libc::c_int) {
 
 pub fn install_crash_handler() {
     unsafe {
-        for s in [libc::SIGABRT, libc::SIGSEGV, libc::SIGBUS, libc::SIGILL, libc::SIGFPE] {
+        for s in [libc::SIGABRT, libc::SIGSEGV, libc::SIGBUS, libc::SIGILL, libc::SIGFPE, libc::SIGALRM] {
             libc::signal(s, on_fatal as usize);
         }
     }
